@@ -33,6 +33,9 @@ type ErrSpec struct {
 	// TB, when set, is carried in the RpcError's Traceback field, as an error
 	// decoded off the wire by a client and relayed by the handler has it.
 	TB string `json:"tb,omitempty"`
+	// RID, when set, is carried in the RpcError's RequestID field: the id of
+	// the upstream call the relayed error came from, not this call's.
+	RID string `json:"rid,omitempty"`
 }
 
 type UnaryScript struct {
@@ -83,11 +86,11 @@ func (e *kindedErr) ErrorKind() string { return e.k }
 func (e *ErrSpec) Build() error {
 	switch e.Kind {
 	case "rpc":
-		return &vgirpc.RpcError{Type: e.Type, Message: e.Msg, Kind: e.ErrKind, Traceback: e.TB}
+		return &vgirpc.RpcError{Type: e.Type, Message: e.Msg, Kind: e.ErrKind, Traceback: e.TB, RequestID: e.RID}
 	case "plain":
 		return errors.New(e.Msg)
 	case "wrapped_rpc":
-		var err error = &vgirpc.RpcError{Type: e.Type, Message: e.Msg, Kind: e.ErrKind, Traceback: e.TB}
+		var err error = &vgirpc.RpcError{Type: e.Type, Message: e.Msg, Kind: e.ErrKind, Traceback: e.TB, RequestID: e.RID}
 		for i := 0; i <= e.Depth; i++ {
 			err = fmt.Errorf("layer%d: %w", i, err)
 		}
@@ -111,7 +114,7 @@ func (e *ErrSpec) Build() error {
 	case "panic_int":
 		panic(len(e.Msg))
 	case "panic_rpc":
-		panic(&vgirpc.RpcError{Type: e.Type, Message: e.Msg, Traceback: e.TB})
+		panic(&vgirpc.RpcError{Type: e.Type, Message: e.Msg, Traceback: e.TB, RequestID: e.RID})
 	case "panic_nilmap":
 		var m map[string]int
 		m[e.Msg] = 1
